@@ -276,6 +276,25 @@ func c05(w *World) {
 		}
 		simrt.Sleep(100 * time.Millisecond)
 		simrt.Settle()
+		// "a later session": the earlier one has ended for good before the next one starts. Its handler
+		// loop may still be working through queued inbound messages after the close (each reply it builds
+		// takes a number from the shared counter although it can no longer be sent); a thorough run with
+		// slow store calls once started the second session in the middle of that and reported a gap.
+		ended := func() bool {
+			if role == "acceptor" {
+				as := acc.Sess[phase-1]
+				return as.Stopped+as.HDisc > 0
+			}
+			return ini.Served
+		}
+		for i := 0; i < 600 && !ended(); i++ {
+			simrt.Sleep(50 * time.Millisecond)
+			simrt.Settle()
+		}
+		if !ended() {
+			w.Inconclusive = "earlier-session-not-ended" // whether it ends is C13's subject
+			return
+		}
 	}
 	if acc != nil {
 		acc.A.Close()
